@@ -59,11 +59,9 @@ def unmarshal(data_in: bytes) -> typing.Tuple[int, int, FrameTypes]:
 
     frame_type, channel_id, frame_size = frame_parts(data_in)
 
-    # Heartbeats do not have frame length indicators
-    if frame_type == constants.FRAME_HEARTBEAT and frame_size == 0:
-        return 8, channel_id, heartbeat.Heartbeat()
-
-    if not frame_size:
+    # Heartbeats have an empty payload
+    is_heartbeat = frame_type == constants.FRAME_HEARTBEAT and frame_size == 0
+    if not frame_size and not is_heartbeat:
         raise exceptions.UnmarshalingException('Unknown', 'No frame size')
 
     byte_count = constants.FRAME_HEADER_SIZE + frame_size + 1
@@ -73,6 +71,8 @@ def unmarshal(data_in: bytes) -> typing.Tuple[int, int, FrameTypes]:
 
     if data_in[byte_count - 1] != constants.FRAME_END:
         raise exceptions.UnmarshalingException('Unknown', 'Last byte error')
+    if is_heartbeat:
+        return byte_count, channel_id, heartbeat.Heartbeat()
     frame_data = data_in[constants.FRAME_HEADER_SIZE:byte_count - 1]
     if frame_type == constants.FRAME_METHOD:
         return byte_count, channel_id, _unmarshal_method_frame(frame_data)
